@@ -61,3 +61,200 @@ Qed.
 
 Example fm_init_inv : fm_inv {| fm_len := 2; fm_last := 1 |}.
 Proof. unfold fm_inv; simpl. split; [lia|reflexivity]. Qed.
+
+(* ---- ifib: Dijkstra's logarithmic Fibonacci algorithm equals the recurrence, for every n and every call history ---- *)
+Lemma fibT_sq p q v : fibT p q (fibT p q v) = fibT (p * p + q * q) (q * q + 2 * p * q) v.
+Proof. destruct v as [a b]. unfold fibT. f_equal; ring. Qed.
+
+Fixpoint iterN {A} (k : nat) (f : A -> A) (x : A) : A := match k with O => x | S k' => f (iterN k' f x) end.
+
+Lemma iter_ext {A} (f g : A -> A) k x : (forall v, f v = g v) -> iterN k f x = iterN k g x.
+Proof. intros H. induction k as [|k IH]; [reflexivity|]. cbn [iterN]. rewrite IH. apply H. Qed.
+
+Lemma iter_double {A} (f : A -> A) k x : iterN (2 * k) f x = iterN k (fun v => f (f v)) x.
+Proof.
+  induction k as [|k IH]; [reflexivity|]. replace (2 * S k)%nat with (S (S (2 * k))) by lia.
+  cbn [iterN]. rewrite IH. reflexivity.
+Qed.
+
+Lemma iter_succ_r' {A} (f : A -> A) k x : iterN (S k) f x = iterN k f (f x).
+Proof. induction k as [|k IH]; [reflexivity|]. cbn [iterN] in *. rewrite IH. reflexivity. Qed.
+
+Lemma ifib_loop_iter n : forall a b p q, ifib_loop n a b p q = snd (iterN (Pos.to_nat n) (fibT p q) (a, b)).
+Proof.
+  induction n as [n IH|n IH|]; intros a b p q; cbn [ifib_loop].
+  - destruct (fibT p q (a, b)) as [a' b'] eqn:E. rewrite IH. rewrite Pos2Nat.inj_xI.
+    rewrite iter_succ_r', E. rewrite iter_double. f_equal. apply iter_ext. intros v. symmetry. apply fibT_sq.
+  - rewrite IH. rewrite Pos2Nat.inj_xO. rewrite iter_double. f_equal. apply iter_ext. intros v. symmetry. apply fibT_sq.
+  - reflexivity.
+Qed.
+
+Lemma fib_iter k : iterN k (fibT 0 1) (1, 0) = (snd (fib_pair k), fst (fib_pair k)).
+Proof.
+  induction k as [|k IH]; [reflexivity|]. cbn [iterN fib_pair]. rewrite IH.
+  destruct (fib_pair k) as [x y]. cbn [fst snd fibT]. f_equal; ring.
+Qed.
+
+Theorem ifib_nonneg_spec n : 0 <= n -> ifib_nonneg n = zfib n.
+Proof.
+  intros Hn. unfold ifib_nonneg, zfib. destruct n as [|k|k]; [reflexivity| |lia].
+  rewrite ifib_loop_iter, fib_iter. cbn [snd]. rewrite Z2Nat.inj_pos. reflexivity.
+Qed.
+
+(* the cache holds Fibonacci numbers only, whatever was asked before *)
+Definition fc_inv (c : fcache) : Prop := forall k v, fc_get c k = Some v -> 0 <= k /\ v = zfib k.
+
+Lemma ifib_call_nonneg_spec c n : fc_inv c -> 0 <= n ->
+  fst (ifib_call_nonneg c n) = zfib n /\ fc_inv (snd (ifib_call_nonneg c n)).
+Proof.
+  intros Hc Hn. unfold ifib_call_nonneg. destruct (fc_get c n) as [v|] eqn:E.
+  - cbn [fst snd]. split; [apply (Hc n v E)|exact Hc].
+  - cbn [fst snd]. split; [apply ifib_nonneg_spec; exact Hn|].
+    destruct (n <? 250); [|exact Hc]. intros k v. cbn [fc_get]. destruct (Z.eqb_spec n k) as [->|NE].
+    + intros [= <-]. split; [exact Hn|apply ifib_nonneg_spec; exact Hn].
+    + apply Hc.
+Qed.
+
+(* F(-n) = (-1)^(n+1) F(n) *)
+Definition zfib_signed (n : Z) : Z := if n <? 0 then (-1) ^ (- n + 1) * zfib (- n) else zfib n.
+
+Theorem ifib_call_spec c n : fc_inv c -> fst (ifib_call c n) = zfib_signed n /\ fc_inv (snd (ifib_call c n)).
+Proof.
+  intros Hc. unfold ifib_call, zfib_signed. destruct (Z.ltb_spec n 0) as [N|P].
+  - destruct (ifib_call_nonneg_spec c (- n) Hc ltac:(lia)) as [V I].
+    destruct (ifib_call_nonneg c (- n)) as [v c']. cbn [fst snd] in *. subst v. split; [reflexivity|exact I].
+  - apply ifib_call_nonneg_spec; assumption.
+Qed.
+
+Theorem ifib_history ns : forall c, fc_inv c -> fib_calls c ns = map zfib_signed ns.
+Proof.
+  induction ns as [|n r IH]; intros c Hc; [reflexivity|]. cbn [fib_calls map].
+  destruct (ifib_call_spec c n Hc) as [V I]. destruct (ifib_call c n) as [v c']. cbn [fst snd] in *. subst v.
+  f_equal. apply IH. exact I.
+Qed.
+
+Example fc_empty_inv : fc_inv [].
+Proof. intros k v H. discriminate. Qed.
+
+(* ---- ifac2: the memoised double factorial returns n!! for every call history ---- *)
+Lemma fact2_fuel_S f : forall n, n <= Z.of_nat f -> fact2_fuel (S f) n = fact2_fuel f n.
+Proof.
+  induction f as [|f IH]; intros n Hn.
+  - cbn [fact2_fuel]. destruct (Z.leb_spec n 1); [reflexivity|lia].
+  - change (fact2_fuel (S (S f)) n) with (if n <=? 1 then 1 else n * fact2_fuel (S f) (n - 2)).
+    change (fact2_fuel (S f) n) with (if n <=? 1 then 1 else n * fact2_fuel f (n - 2)).
+    destruct (Z.leb_spec n 1); [reflexivity|]. rewrite IH by lia. reflexivity.
+Qed.
+
+Lemma zfact2_step k : 0 <= k -> zfact2 (k + 2) = (k + 2) * zfact2 k.
+Proof.
+  intros Hk. unfold zfact2. replace (Z.to_nat (k + 2)) with (S (S (Z.to_nat k))) by lia.
+  change (fact2_fuel (S (S (Z.to_nat k))) (k + 2)) with (if k + 2 <=? 1 then 1 else (k + 2) * fact2_fuel (S (Z.to_nat k)) (k + 2 - 2)).
+  destruct (Z.leb_spec (k + 2) 1); [lia|]. replace (k + 2 - 2) with k by lia. rewrite fact2_fuel_S by lia. reflexivity.
+Qed.
+
+Lemma fc_maxkey_max c : forall b, 0 <= b -> fc_maxkey c b = Z.max b (fc_maxkey c 0).
+Proof.
+  induction c as [|[k v] r IH]; intros b Hb; cbn [fc_maxkey]; [lia|]. rewrite (IH (Z.max b k)), (IH (Z.max 0 k)) by lia. lia.
+Qed.
+
+Lemma fc_get_le_max c k v : fc_get c k = Some v -> k <= fc_maxkey c 0.
+Proof.
+  induction c as [|[k' v'] r IH]; cbn [fc_get fc_maxkey]; [discriminate|].
+  rewrite fc_maxkey_max by lia. destruct (Z.eqb_spec k' k) as [->|NE]; [lia|]. intros H. specialize (IH H). lia.
+Qed.
+
+(* invariant of one dictionary (parity par): stored values are double factorials, the keys of that parity are stored
+   contiguously up to the largest one, which does not exceed the cache limit *)
+Definition f2_inv (maxc : Z) (par : bool) (c : fcache) : Prop :=
+  (forall k v, fc_get c k = Some v -> 0 <= k /\ Z.odd k = par /\ v = zfact2 k) /\
+  fc_get c (fc_maxkey c 0) <> None /\
+  (forall j, 0 <= j <= fc_maxkey c 0 -> Z.odd j = par -> fc_get c j <> None) /\
+  fc_maxkey c 0 <= maxc.
+
+Lemma zfact2_pos k : 0 < zfact2 k.
+Proof.
+  unfold zfact2. generalize (Z.to_nat k) as f. intros f. revert k. induction f as [|f IH]; intros k; cbn [fact2_fuel]; [lia|].
+  destruct (Z.leb_spec k 1); [lia|]. specialize (IH (k - 2)). nia.
+Qed.
+
+Lemma ifac2_loop_spec maxc par : forall fuel k n p c,
+  f2_inv maxc par c -> fc_maxkey c 0 <= k -> (k <= maxc -> fc_maxkey c 0 = k) ->
+  0 <= k -> Z.odd k = par -> Z.odd n = par -> k <= n -> p = zfact2 k -> n - k <= 2 * Z.of_nat fuel ->
+  fst (ifac2_loop fuel maxc k n p c) = zfact2 n /\ f2_inv maxc par (snd (ifac2_loop fuel maxc k n p c)).
+Proof.
+  induction fuel as [|f IH]; intros k n p c Hc Hmax Hmk Hk Pk Pn Hle Hp Hf.
+  - cbn [ifac2_loop fst snd]. assert (n = k) by lia. subst. split; [reflexivity|exact Hc].
+  - cbn [ifac2_loop]. destruct (Z.ltb_spec k n) as [L|G].
+    2:{ cbn [fst snd]. assert (n = k) by lia. subst. split; [reflexivity|exact Hc]. }
+    cbv zeta.
+    assert (Podd : Z.odd (k + 2) = par) by (rewrite Z.odd_add, Pk; cbn; destruct par; reflexivity).
+    assert (Hn2 : k + 2 <= n).
+    { destruct (Z.eq_dec (k + 1) n) as [E|NE]; [|lia]. exfalso. subst n. rewrite Z.odd_add in Pn. rewrite Pk in Pn. destruct par; discriminate. }
+    destruct Hc as [C1 [C2 [C3 C4]]].
+    destruct (Z.leb_spec (k + 2) maxc) as [Store|NoStore].
+    + assert (MK : fc_maxkey c 0 = k) by (apply Hmk; lia).
+      assert (NM : fc_maxkey ((k + 2, p * (k + 2)) :: c) 0 = k + 2) by (cbn [fc_maxkey]; rewrite fc_maxkey_max by lia; lia).
+      apply IH; try lia; auto.
+      * split; [|split; [|split]].
+        -- intros k0 v0. cbn [fc_get]. destruct (Z.eqb_spec (k + 2) k0) as [<-|NE].
+           ++ intros [= <-]. repeat split; [lia|exact Podd|]. subst p. rewrite zfact2_step by lia. ring.
+           ++ apply C1.
+        -- rewrite NM. cbn [fc_get]. rewrite Z.eqb_refl. discriminate.
+        -- rewrite NM. intros j Hj Pj. cbn [fc_get]. destruct (Z.eqb_spec (k + 2) j) as [_|NE]; [discriminate|].
+           apply C3; [|exact Pj]. rewrite MK.
+           destruct (Z.eq_dec j (k + 1)) as [->|]; [|lia]. exfalso. rewrite Z.odd_add, Pk in Pj. destruct par; discriminate.
+        -- rewrite NM. exact Store.
+      * subst p. rewrite zfact2_step by lia. ring.
+    + apply IH; try lia; auto.
+      * exact (conj C1 (conj C2 (conj C3 C4))).
+      * subst p. rewrite zfact2_step by lia. ring.
+Qed.
+
+Lemma ifac2_memo_call_spec maxc par c n : f2_inv maxc par c -> 0 <= n -> Z.odd n = par ->
+  fst (ifac2_memo_call maxc c n) = zfact2 n /\ f2_inv maxc par (snd (ifac2_memo_call maxc c n)).
+Proof.
+  intros Hc Hn Pn. unfold ifac2_memo_call. destruct (fc_get c n) as [v|] eqn:E.
+  - destruct Hc as [C1 C2]. destruct (C1 n v E) as [_ [_ ->]]. pose proof (zfact2_pos n).
+    destruct (Z.eqb_spec (zfact2 n) 0); [lia|]. cbn [fst snd]. split; [reflexivity|split; assumption].
+  - pose proof Hc as [C1 [C2 [C3 C4]]]. destruct (fc_get c (fc_maxkey c 0)) as [p|] eqn:EM; [|contradiction].
+    destruct (C1 _ _ EM) as [K0 [KP ->]].
+    destruct (Z.le_gt_cases (fc_maxkey c 0) n) as [LE|GT].
+    + apply (ifac2_loop_spec maxc par); auto; lia.
+    + exfalso. apply (C3 n); [lia|exact Pn|exact E].
+Qed.
+
+(* the pair of dictionaries *)
+Definition f2_pair_inv (maxc : Z) (cs : fcache * fcache) : Prop := f2_inv maxc false (fst cs) /\ f2_inv maxc true (snd cs).
+
+Theorem ifac2_call_spec maxc cs n : f2_pair_inv maxc cs -> 0 <= n ->
+  fst (ifac2_call maxc cs n) = zfact2 n /\ f2_pair_inv maxc (snd (ifac2_call maxc cs n)).
+Proof.
+  intros [He Ho] Hn. unfold ifac2_call. destruct (Z.odd n) eqn:P.
+  - destruct (ifac2_memo_call_spec maxc true (snd cs) n Ho Hn P) as [V I].
+    destruct (ifac2_memo_call maxc (snd cs) n) as [v c']. cbn [fst snd] in *. split; [exact V|split; assumption].
+  - destruct (ifac2_memo_call_spec maxc false (fst cs) n He Hn P) as [V I].
+    destruct (ifac2_memo_call maxc (fst cs) n) as [v c']. cbn [fst snd] in *. split; [exact V|split; assumption].
+Qed.
+
+Theorem ifac2_history maxc ns : forall cs, f2_pair_inv maxc cs -> Forall (fun n => 0 <= n) ns ->
+  fac2_calls maxc cs ns = map zfact2 ns.
+Proof.
+  induction ns as [|n r IH]; intros cs Hc Hall; [reflexivity|]. inversion Hall as [|? ? Hn Hr]; subst. cbn [fac2_calls map].
+  destruct (ifac2_call_spec maxc cs n Hc Hn) as [V I]. destruct (ifac2_call maxc cs n) as [v cs']. cbn [fst snd] in *. subst v.
+  f_equal. apply IH; assumption.
+Qed.
+
+(* the initial dictionaries {0: 1} and {1: 1} *)
+Example f2_init_inv : f2_pair_inv 1000 ([(0, 1)], [(1, 1)]).
+Proof.
+  split; (split; [|split; [|split]]).
+  - intros k v. cbn [fc_get fst]. destruct (Z.eqb_spec 0 k) as [<-|]; [intros [= <-]; repeat split; lia|discriminate].
+  - cbn. discriminate.
+  - cbn [fst fc_maxkey]. intros j Hj _. assert (j = 0) as -> by (cbn in Hj; lia). cbn. discriminate.
+  - cbn. lia.
+  - intros k v. cbn [fc_get snd]. destruct (Z.eqb_spec 1 k) as [<-|]; [intros [= <-]; repeat split; lia|discriminate].
+  - cbn. discriminate.
+  - cbn [snd fc_maxkey]. intros j Hj Pj. cbn in Hj. assert (j = 0 \/ j = 1) as [->| ->] by lia; [cbn in Pj; discriminate|cbn; discriminate].
+  - cbn. lia.
+Qed.
